@@ -389,3 +389,129 @@ def load_known():
     if not os.path.exists(p):
         return []
     return json.load(open(p)).get('findings', [])
+
+
+# ----------------------------------------------------------------- end-to-end cases
+import tempfile
+import gzip as _gzip
+
+
+def hexarg(b):
+    if isinstance(b, str):
+        b = b.encode('latin-1')
+    return b.hex() if b else '-'
+
+
+class Case:
+    def __init__(self, tag, files, argv, ndebug=True, cols=None, dest=None, meta=None):
+        self.tag = tag
+        self.files = files          # {relative name: bytes}
+        self.argv = argv            # list of str/bytes; '@name' prefix is replaced by the absolute path
+        self.ndebug = ndebug
+        self.cols = cols
+        self.dest = dest            # relative name of a destination directory to create
+        self.meta = meta or {}
+        self.model = None
+        self.impl = None
+
+
+def parse_model_line(line):
+    if line.startswith('unmodelled'):
+        return {'unmodelled': line}
+    kv = dict(x.split('=', 1) for x in line.split(' ') if '=' in x)
+    try:
+        files = {}
+        if kv.get('files', '-') != '-':
+            for ent in kv['files'].split(','):
+                p, c = ent.split(':')
+                files[unhex(p)] = unhex(c)
+        return {'exit': int(kv['exit']), 'err': kv['err'] == '1', 'out': unhex(kv['out']),
+                'files': files, 'crash': None if kv['crash'] == '-' else unhex(kv['crash']).decode('latin-1')}
+    except Exception:
+        return {'bad': line}
+
+
+def run_cases(cases, impl_bin, kind_env=None, workers=16, timeout=20):
+    """Run every case through the Lean model (one driver process) and the real
+    binary (one process per case, in parallel)."""
+    root = tempfile.mkdtemp(prefix='beebverif-')
+    try:
+        reqs = []
+        for i, c in enumerate(cases):
+            d = os.path.join(root, 'c%d' % i)
+            os.makedirs(d)
+            c.dir = d
+            reqs.append('clearfiles')
+            for name, content in c.files.items():
+                p = os.path.join(d, name)
+                with open(p, 'wb') as f:
+                    f.write(content)
+                if name.endswith('.gz'):
+                    try:
+                        raw = gunzip_first_member(content)
+                        rp = p + '.inflated'
+                        with open(rp, 'wb') as f:
+                            f.write(raw)
+                        reqs.append('file %s raw %s' % (hexarg(p), rp))
+                    except Exception:
+                        reqs.append('file %s gzbad -' % hexarg(p))
+                else:
+                    reqs.append('file %s raw %s' % (hexarg(p), p))
+            if c.dest:
+                os.makedirs(os.path.join(d, c.dest), exist_ok=True)
+            av = []
+            for a in c.argv:
+                if isinstance(a, str):
+                    a = a.encode('latin-1')
+                if a.startswith(b'@'):
+                    a = os.path.join(d, a[1:].decode('latin-1')).encode('latin-1')
+                av.append(a)
+            c.real_argv = av
+            reqs.append('main %d %s %s' % (1 if c.ndebug else 0, c.cols if c.cols else '-', ' '.join(hexarg(a) for a in av)))
+        out, rc, err = run_lines(driver_path(), reqs, timeout=1800)
+        if rc != 0 or len(out) != len(reqs):
+            raise RuntimeError('model driver failed rc=%s (%d/%d): %s' % (rc, len(out), len(reqs), err[-500:]))
+        k = 0
+        for c in cases:
+            k += 1 + len(c.files)
+            c.model = parse_model_line(out[k])
+            k += 1
+
+        def one(c):
+            env = {'COLUMNS': str(c.cols)} if c.cols else {}
+            if kind_env:
+                env.update(kind_env)
+            before = set()
+            if c.dest:
+                before = set(os.listdir(os.path.join(c.dir, c.dest)))
+            rc, so, se = run_cmd([impl_bin] + c.real_argv, env=env, timeout=timeout, cwd=c.dir)
+            files = {}
+            if c.dest:
+                dd = os.path.join(c.dir, c.dest)
+                for rootd, ds, fs in os.walk(dd):
+                    for f in fs:
+                        p = os.path.join(rootd, f)
+                        files[p.encode('latin-1')] = open(p, 'rb').read()
+            c.impl = {'exit': rc, 'out': so, 'err': se, 'files': files}
+        with cf.ThreadPoolExecutor(max_workers=workers) as ex:
+            list(ex.map(one, cases))
+    finally:
+        shutil.rmtree(root, ignore_errors=True)
+    return cases
+
+
+def gunzip_first_member(data):
+    import zlib
+    d = zlib.decompressobj(16 + zlib.MAX_WBITS)
+    out = d.decompress(data)
+    if not d.eof:
+        raise ValueError('incomplete')
+    return out
+
+
+def crashed(rc, stderr):
+    """Did the real binary end by signal / abort / sanitizer report?"""
+    if rc < 0 or rc in (98, 99, 134, 139):
+        return True
+    s = stderr if isinstance(stderr, str) else stderr.decode('latin-1', 'replace')
+    return 'AddressSanitizer' in s or 'runtime error:' in s or 'terminate called' in s or 'Assertion' in s
